@@ -26,6 +26,7 @@ class Seg(ConnFamily):
     """the same byte stream under many segmentations (and the same continuation of other events)"""
 
     name = "seg"
+    check_lens = False  # segmentations differ in their number of events
     quick_n = 700
     thorough_n = 12000
 
